@@ -156,6 +156,10 @@ fn tokenize_nested(
                     tokens.append(&mut tokresult.tokens);
 
                     // also save the names of the included file(s)
+                    // files that are included by the included file are reached through this /include directive
+                    for nested_filename in &mut tokresult.filenames[1..] {
+                        nested_filename.main_include = Some(incname.to_owned());
+                    }
                     filenames.append(&mut tokresult.filenames);
                     filedatas.append(&mut tokresult.filedata);
                 } else {
